@@ -40,6 +40,13 @@ type Spec struct {
 	// Copies (direct stage), cyclic: write k is not a Write call but an io.Copy from a plain reader holding the
 	// same bytes (io.Copy picks whatever the writer offers: ReadFrom if it has one, Write calls of 32 KiB if not)
 	Copies []bool `json:"copies,omitempty"`
+	// Abandon > 0 (bowl stage): before the sessions that count, a first attempt at the same file on the same bowl
+	// object writes this many bytes of the new content and is given up (Close without Finalize, no checkpoint);
+	// the file is then started over from scratch with a new writer of that bowl
+	Abandon int `json:"abandon,omitempty"`
+	// Shift > 0: the new content lost its first Shift bytes (a dropped prefix): what follows equals the old
+	// content Shift bytes further on - equal runs are equal to the wrong place of the old file
+	Shift int `json:"shift,omitempty"`
 }
 
 // plainReader hides every method but Read
@@ -89,6 +96,9 @@ func contents(s Spec) (old, nw []byte) {
 			c = len(nw)
 		}
 		nw = nw[:len(nw)-c]
+	}
+	if s.Shift > 0 && s.Shift < len(nw) {
+		nw = nw[s.Shift:]
 	}
 	return old, nw
 }
@@ -157,6 +167,9 @@ func check(s Spec) h.Result {
 	}
 	if len(nw) == 0 {
 		cl = append(cl, "new:empty")
+	}
+	if s.Shift > 0 {
+		cl = append(cl, "new:lost-a-prefix")
 	}
 	mf := &memFile{}
 	rd := bytes.NewReader(old)
@@ -435,6 +448,12 @@ var prop = h.Prop[Spec]{
 		if rapid.IntRange(0, 2).Draw(t, "some-writes-by-io.Copy") == 0 {
 			s.Copies = rapid.SliceOfN(rapid.Bool(), 1, 5).Draw(t, "copies")
 		}
+		if rapid.IntRange(0, 4).Draw(t, "new-lost-a-prefix") == 0 {
+			s.Shift = rapid.OneOf(rapid.SampledFrom([]int{win, win, 2 * win, thr, 1}), rapid.IntRange(1, 3*win)).Draw(t, "shift")
+		}
+		if rapid.IntRange(0, 3).Draw(t, "first-attempt-given-up") == 0 {
+			s.Abandon = rapid.OneOf(rapid.IntRange(1, 300*1024), rapid.SampledFrom([]int{win, win + 1, 160 * 1024, 2 * win})).Draw(t, "abandon")
+		}
 		if rapid.IntRange(0, 3).Draw(t, "old-grown-on-disk") == 0 {
 			s.Grown = rapid.OneOf(rapid.IntRange(1, 100), rapid.IntRange(1, 200*1024)).Draw(t, "grown")
 		}
@@ -461,6 +480,10 @@ func containers(oldLen, newLen int) (*tlc.Container, *tlc.Container) {
 		return &tlc.Container{Files: []*tlc.File{{Path: "f", Mode: 0o644, Size: int64(n), Offset: 0}, {Path: "e", Mode: 0o644, Size: int64(n), Offset: int64(n)}}, Size: 2 * int64(n)}
 	}
 	return mk(oldLen), mk(newLen)
+}
+
+func fail0(cl []string, f string, a ...interface{}) h.Result {
+	return h.Result{Fail: fmt.Sprintf(f, a...), Classes: cl}
 }
 
 func checkBowl(s Spec) h.Result {
@@ -510,6 +533,32 @@ func checkBowl(s Spec) h.Result {
 		if err := we.Close(); err != nil {
 			return h.Failf("Close: %v", err)
 		}
+	}
+	if s.Abandon > 0 {
+		wa, err := b.GetWriter(0)
+		if err != nil {
+			return h.Failf("GetWriter: %v", err)
+		}
+		if _, err := wa.Resume(nil); err != nil {
+			return h.Failf("EntryWriter.Resume(nil): %v", err)
+		}
+		n := s.Abandon
+		if n > len(nw) {
+			n = len(nw)
+		}
+		for p := 0; p < n; p += 32 * 1024 {
+			e := p + 32*1024
+			if e > n {
+				e = n
+			}
+			if _, err := wa.Write(nw[p:e]); err != nil {
+				return fail0(cl, "Write (attempt that is given up): %v", err)
+			}
+		}
+		if err := wa.Close(); err != nil {
+			return fail0(cl, "Close of a writer that is given up: %v", err)
+		}
+		cl = append(cl, "bowl:first-attempt-given-up-then-started-over-on-the-same-bowl")
 	}
 	w, err := b.GetWriter(0)
 	if err != nil {
